@@ -4,12 +4,14 @@ CONSTANTS
   Gaps <- GapsJitter2
   T = 10
   D = 1
-  MaxEvents = 4
+  MaxEvents = 3
+  MaxFails = 2
+  Backoff = FALSE
   Closed = TRUE
   ObserveCb = FALSE
   TrackQuiet = FALSE
   UnitMs = 1000
-INVARIANTS TypeOK Converged LearnsLive ForgetsDead SelfListed NoDuplicateAddr ChannelSane
+INVARIANTS TypeOK Converged LearnsLive ForgetsDead SelfListed PeriodRestored NoDuplicateAddr ChannelSane
 PROPERTIES CallbackIffChange NoResurrection
 ACTION_CONSTRAINT Dump
 VIEW View
